@@ -33,6 +33,19 @@ def text_corpus(seed, tier, family, what, features=()):
     return c, info
 
 
+def report_rejected(chk, pid, rejected, info, cfg):
+    """every item of the text corpus is valid Rust with valid attributes: what rustc rejects is code the derive produced"""
+    seen = set()
+    for de in rejected:
+        if de["item"] in seen:
+            continue
+        seen.add(de["item"])
+        inf = info.get(de["item"], {})
+        chk.violation(f"{pid}|does-not-compile|{inf.get('position')}|{inf.get('cls')}" + (f"|{inf.get('form')}" if inf.get("form") else ""),
+                      f"[{cfg}] item with {inf.get('position')} {inf.get('text')!r} is rejected by rustc: {de['message'][:200]}: {(de['source'] or '')[:300]}",
+                      de, tags=[f"pos:{inf.get('position')}", f"cls:{inf.get('cls')}", "does-not-compile"])
+
+
 def file_problems(f, expected_names=None):
     """C04 oracle on one described file; returns list of (kind, detail)."""
     out = []
@@ -83,10 +96,11 @@ def c04(pid, tier, seed):
             cfg = "+".join(f.split("/")[1] for f in feats) or "default"
             corpus, info = text_corpus(seed, tier, "text" + cfg.replace("-", "")[:3].replace("def", ""), "c04", feats)
             try:
-                corpus.build()
+                rejected = corpus.build()
             except C.Inconclusive as e:
                 chk.note_inconclusive(str(e)[:1200])
                 continue
+            report_rejected(chk, "C04", rejected, info, cfg)
             results = corpus.run("exports", seed, tier)
             check_runs(chk, results, "exports")
             for r in results:
@@ -154,10 +168,20 @@ def doc_lines_expected(inf):
     if t is None:
         return []
     lines = [t.strip()]
-    if inf.get("form") == "two-lines":
+    form = inf.get("form")
+    if form == "two-lines":
         lines.append("second line")
-    if inf.get("form") in ("block", "block-blank"):
+    if form in ("block", "block-blank", "block+line", "block-nested"):
         lines = [t.replace("*/", "* /").replace("/*", "/ *").strip()]
+    if form == "block+line":
+        lines.append("trailing line")
+    if form in ("attr-multiline", "attr-multiline+attr"):
+        lines.append("second attr line")
+    if form == "attr-multiline+attr":
+        lines.append("third attr")
+    if form == "block-nested":
+        lines.append("nested")
+        lines.append("tail")
     return [l for l in lines if l]
 
 
@@ -173,7 +197,7 @@ def c15(pid, tier, seed):
     chk.assumptions = ["variant documentation is not required to appear (the statement speaks of types and named fields)"]
     try:
         corpus, info = text_corpus(seed, tier, "docs", "c15")
-        corpus.build()
+        report_rejected(chk, "C15", corpus.build(), info, "default")
         results = corpus.run("declinfo", seed, tier)
         check_runs(chk, results, "declinfo")
         groups = {}
